@@ -26,4 +26,95 @@ theorem C03_eval_refines_spec (env : Env) (root : Msg) (f : MFlags) (e : Expr) (
     r.1 = o.res ∧ (o.res = .match → Spec.planOf (Proofs.mlKeys r.2.ml) = Spec.planOf (o.actions.filterMap Spec.actKey)) :=
   Proofs.eval_refines_spec env root f e rules hp hd hl
 
+/-! ## Non-vacuity
+
+A concrete environment, message and rule tree inside the domain: a nested block whose `break`
+rule fires, a `pass` rule that fires at the top level, and a second nested block (entered with
+the pass pending) in which a plain rule matches.  `crosses = false`, the result is a match and
+the plan is not empty; `C03_eval_refines_spec` then gives the evaluator's result.
+
+```
+match all { match new reject break }
+match ! header "X" /1/ label "x" pass
+match all { match body /2/ discard
+            match new or all move "/d" flag "cur" }
+```
+-/
+
+/-- Regex engine: the pattern `1` matches everything, every other pattern nothing; message
+file `/m/new/1`. -/
+def exEnv : Env where
+  rx := fun p _ => if p.src == [49] then .ok [some (0, 0)] else .nomatch
+  command := fun _ => 0
+  isDir := fun _ => false
+  now := 0
+  strptime := fun _ => none
+  zoneName := fun _ => none
+  fileTime := fun _ => none
+  dryrun := false
+  path := [47, 109, 47, 110, 101, 119, 47, 49]
+
+def exMsg : Msg := { headers := [], body := [] }
+
+def exTree : Expr :=
+  .block 1 (.or 1 (.or 1
+    (.mtch 2 (.all 2) (.block 2 (.mtch 3 (.new 3) (.and 3 (.reject 3) (.brk 3)))))
+    (.mtch 4 (.neg 4 (.header 4 [[88]] { src := [49] })) (.and 4 (.label 4 [[120]]) (.pass 4))))
+    (.mtch 5 (.all 5) (.block 5 (.or 5
+      (.mtch 6 (.body 6 { src := [50] }) (.discard 6))
+      (.mtch 7 (.or 7 (.new 7) (.all 7)) (.and 7 (.move 7 [47, 100]) (.flag 7 [99, 117, 114])))))))
+
+def exRules : List Spec.Rule :=
+  [.blk 2 (.all 2) [.acts 3 (.new 3) [.reject 3] .brk],
+   .acts 4 (.neg 4 (.header 4 [[88]] { src := [49] })) [.label 4 [[120]]] .pass,
+   .blk 5 (.all 5)
+     [.acts 6 (.body 6 { src := [50] }) [.discard 6] .none,
+      .acts 7 (.or 7 (.new 7) (.all 7)) [.move 7 [47, 100], .flag 7 [99, 117, 114]] .none]]
+
+theorem ex_parse : Spec.parseBlock exTree = some exRules := by
+  simp [exTree, exRules, Spec.parseBlock, Spec.parseRules, Spec.parseRule, Spec.isCond, Spec.splitActs,
+    Spec.andChain, Spec.isCtlExpr, Spec.isActionExpr]
+
+theorem ex_inDomain : Proofs.InDomain exEnv exTree = true := by decide +kernel
+
+abbrev exVal := Proofs.valuation exEnv exMsg MFlags.empty
+
+theorem ex_v_all (l : Nat) : exVal (.all l) = .match := by
+  simp only [exVal, Proofs.valuation, eval]
+theorem ex_v_new (l : Nat) : exVal (.new l) = .match := by
+  simp only [exVal, Proofs.valuation, eval]; decide +kernel
+theorem ex_v_header : exVal (.header 4 [[88]] { src := [49] }) = .nomatch := by
+  simp only [exVal, Proofs.valuation, eval]; decide +kernel
+theorem ex_v_body : exVal (.body 6 { src := [50] }) = .nomatch := by
+  simp only [exVal, Proofs.valuation, eval]; decide +kernel
+
+/-- The documented outcome: a match with four actions, no crossing. -/
+theorem ex_outcome : Spec.evalBlock exVal Proofs.actionErr exRules =
+    { res := .match,
+      actions := [.reject 3, .label 4 [[120]], .move 7 [47, 100], .flag 7 [99, 117, 114]],
+      crosses := false } := by
+  simp [exRules, Spec.evalBlock, Spec.evalRules, Spec.condVal, ex_v_all, ex_v_new, ex_v_header, ex_v_body,
+    Proofs.actionErr, PATH_MAX]
+
+/-- The hypotheses of `C03_eval_refines_spec` are satisfiable with a match and a non-empty plan,
+and the theorem then pins the evaluator's result and plan. -/
+theorem C03_nonvacuous :
+    Spec.parseBlock exTree = some exRules ∧ Proofs.InDomain exEnv exTree = true ∧
+    (Spec.evalBlock exVal Proofs.actionErr exRules).crosses = false ∧
+    (eval exEnv exMsg exTree 0 exMsg { ml := [], flags := MFlags.empty }).1 = .match ∧
+    Spec.planOf (Proofs.mlKeys (eval exEnv exMsg exTree 0 exMsg { ml := [], flags := MFlags.empty }).2.ml) =
+      ([(.reject, 3), (.label, 4)], some (.flag, 7)) := by
+  have hc : (Spec.evalBlock exVal Proofs.actionErr exRules).crosses = false := by rw [ex_outcome]
+  have h := C03_eval_refines_spec exEnv exMsg MFlags.empty exTree exRules ex_parse ex_inDomain hc
+  simp only [ex_outcome] at h
+  refine ⟨ex_parse, ex_inDomain, hc, h.1, ?_⟩
+  rw [h.2 trivial]
+  decide
+
+/-- `old` is inside the domain as long as no `flags` action of the tree sets `S`
+(`match old flags "T" move "/x"`). -/
+theorem ex_old_inDomain :
+    Proofs.InDomain exEnv (.block 1 (.mtch 2 (.old 2) (.and 2 (.flags 2 [84]) (.move 2 [47, 120])))) = true := by
+  decide +kernel
+
 end Mdsort.Props
